@@ -37,8 +37,33 @@ theorem scanIncFile_close (fs : FS) (fuel : Nat) (stack : List (Nat × Nat)) (cu
         | .error e => .error (.ctx e)
         | .ok c => scanIncFile fs fuel stack cur (pos + 1) rest { st' with ctx := c } := rfl
 
+/-- the INCLUDE token (`processInclude`): the directive written before it is placed first (repair F42); then the name,
+the target and the include stack are examined, and the target is scanned from the state with that directive placed -/
 theorem scanIncFile_incl (fs : FS) (fuel : Nat) (stack : List (Nat × Nat)) (cur pos f : Nat) (valid : Bool)
     (rest : List FTok) (st : PScan) :
+    scanIncFile fs (fuel + 1) stack cur pos (.incl f valid :: rest) st =
+      match flushPending st with
+      | .error e => .error e
+      | .ok stf =>
+        if !valid then .error (.inc (.badName cur pos))
+        else match fs.get? f with
+          | none => .error (.inc (.missing cur pos))
+          | some .directory => .error (.inc (.isDirectory cur pos))
+          | some (.file toks) =>
+            if stack.any (·.1 == cur) then .error (.inc (.recursion cur pos))
+            else match scanIncFile fs fuel ((cur, pos) :: stack) f 0 toks stf with
+              | .error e => .error e
+              | .ok st' => scanIncFile fs fuel stack cur (pos + 1) rest st' := rfl
+
+/-- the INCLUDE token when the directive written before it cannot be placed: its context error -/
+theorem scanIncFile_incl_error (fs : FS) (fuel : Nat) (stack : List (Nat × Nat)) (cur pos f : Nat) (valid : Bool)
+    (rest : List FTok) (st : PScan) (e : ProjErr) (hfl : flushPending st = .error e) :
+    scanIncFile fs (fuel + 1) stack cur pos (.incl f valid :: rest) st = .error e := by
+  rw [scanIncFile_incl, hfl]
+
+/-- the INCLUDE token when the directive written before it is placed (giving `stf`) -/
+theorem scanIncFile_incl_ok (fs : FS) (fuel : Nat) (stack : List (Nat × Nat)) (cur pos f : Nat) (valid : Bool)
+    (rest : List FTok) (st stf : PScan) (hfl : flushPending st = .ok stf) :
     scanIncFile fs (fuel + 1) stack cur pos (.incl f valid :: rest) st =
       if !valid then .error (.inc (.badName cur pos))
       else match fs.get? f with
@@ -46,19 +71,83 @@ theorem scanIncFile_incl (fs : FS) (fuel : Nat) (stack : List (Nat × Nat)) (cur
         | some .directory => .error (.inc (.isDirectory cur pos))
         | some (.file toks) =>
           if stack.any (·.1 == cur) then .error (.inc (.recursion cur pos))
-          else match scanIncFile fs fuel ((cur, pos) :: stack) f 0 toks st with
+          else match scanIncFile fs fuel ((cur, pos) :: stack) f 0 toks stf with
             | .error e => .error e
-            | .ok st' => scanIncFile fs fuel stack cur (pos + 1) rest st' := rfl
+            | .ok st' => scanIncFile fs fuel stack cur (pos + 1) rest st' := by
+  rw [scanIncFile_incl, hfl]
 
-/-- the INCLUDE of an existing file, from a file that is not on the stack: the pushing step -/
+/-- the INCLUDE of an existing file, from a file that is not on the stack: the pending directive is placed, then the
+pushing step -/
 theorem scanIncFile_incl_file (fs : FS) (fuel : Nat) (stack : List (Nat × Nat)) (cur pos f : Nat)
     (rest body : List FTok) (st : PScan) (hf : fs.get? f = some (.file body))
     (hs : stack.any (·.1 == cur) = false) :
     scanIncFile fs (fuel + 1) stack cur pos (.incl f true :: rest) st =
-      match scanIncFile fs fuel ((cur, pos) :: stack) f 0 body st with
+      match flushPending st with
+      | .error e => .error e
+      | .ok stf =>
+        match scanIncFile fs fuel ((cur, pos) :: stack) f 0 body stf with
+        | .error e => .error e
+        | .ok st' => scanIncFile fs fuel stack cur (pos + 1) rest st' := by
+  rw [scanIncFile_incl]; cases flushPending st <;> simp [hf, hs]
+
+/-- the same when the pending directive is placed (giving `stf`) -/
+theorem scanIncFile_incl_file_ok (fs : FS) (fuel : Nat) (stack : List (Nat × Nat)) (cur pos f : Nat)
+    (rest body : List FTok) (st stf : PScan) (hf : fs.get? f = some (.file body))
+    (hs : stack.any (·.1 == cur) = false) (hfl : flushPending st = .ok stf) :
+    scanIncFile fs (fuel + 1) stack cur pos (.incl f true :: rest) st =
+      match scanIncFile fs fuel ((cur, pos) :: stack) f 0 body stf with
       | .error e => .error e
       | .ok st' => scanIncFile fs fuel stack cur (pos + 1) rest st' := by
-  rw [scanIncFile_incl]; simp [hf, hs]
+  rw [scanIncFile_incl_file fs fuel stack cur pos f rest body st hf hs, hfl]
+
+/-- every step of the scan places the pending directive first: if that fails, the scan fails with its error -/
+theorem scanIncFile_flush_error (fs : FS) (fuel : Nat) (stack : List (Nat × Nat)) (cur pos : Nat) (toks : List FTok)
+    (st : PScan) (e : ProjErr) (hfl : flushPending st = .error e) :
+    scanIncFile fs (fuel + 1) stack cur pos toks st = .error e := by
+  cases toks with
+  | nil => rw [scanIncFile_nil, hfl]
+  | cons t rest =>
+    cases t with
+    | dir d => rw [scanIncFile_dir, hfl]
+    | close => rw [scanIncFile_close, hfl]
+    | incl f valid => rw [scanIncFile_incl, hfl]
+
+/-- an accepted INCLUDE: the pending directive was placed, the name is accepted, the target is an existing regular
+file, the including file is not on the stack, and the target was accepted -/
+theorem incl_head_ok (fs : FS) (fuel : Nat) (stack : List (Nat × Nat)) (cur pos f : Nat) (v : Bool)
+    (rest : List FTok) (st r : PScan)
+    (h : scanIncFile fs fuel stack cur pos (FTok.incl f v :: rest) st = .ok r) :
+    ∃ n body stf st', fuel = n + 1 ∧ flushPending st = .ok stf ∧ v = true ∧
+      fs.get? f = some (.file body) ∧ stack.any (·.1 == cur) = false ∧
+      scanIncFile fs n ((cur, pos) :: stack) f 0 body stf = .ok st' ∧
+      scanIncFile fs n stack cur (pos + 1) rest st' = .ok r := by
+  cases fuel with
+  | zero => rw [scanIncFile_zero] at h; cases h
+  | succ n =>
+    rw [scanIncFile_incl] at h
+    cases hfl : flushPending st with
+    | error e => simp [hfl] at h
+    | ok stf =>
+      simp only [hfl] at h
+      cases v with
+      | false => simp at h
+      | true =>
+        cases hg : fs.get? f with
+        | none => simp [hg] at h
+        | some e =>
+          cases e with
+          | directory => simp [hg] at h
+          | file body =>
+            simp only [hg] at h
+            cases hs : stack.any (·.1 == cur) with
+            | true => simp [hs] at h
+            | false =>
+              simp only [hs] at h
+              cases hi : scanIncFile fs n ((cur, pos) :: stack) f 0 body stf with
+              | error e => simp [hi] at h
+              | ok st' =>
+                simp only [hi] at h
+                exact ⟨n, body, stf, st', rfl, rfl, rfl, rfl, rfl, hi, by simpa using h⟩
 
 /-! ### the file system -/
 
@@ -142,24 +231,8 @@ theorem ok_suffix (fs : FS) (stack : List (Nat × Nat)) (cur : Nat) (rest : List
           | error e => simp [hc] at h
           | ok c => simp only [hc] at h; exact ih _ _ _ h
       | incl f valid =>
-        rw [scanIncFile_incl] at h
-        cases valid with
-        | false => simp at h
-        | true =>
-          cases hg : fs.get? f with
-          | none => simp [hg] at h
-          | some e =>
-            cases e with
-            | directory => simp [hg] at h
-            | file body =>
-              simp only [hg] at h
-              cases hs : stack.any (·.1 == cur) with
-              | true => simp [hs] at h
-              | false =>
-                simp only [hs] at h
-                cases hi : scanIncFile fs fuel ((cur, pos) :: stack) f 0 body st with
-                | error e => simp [hi] at h
-                | ok st' => simp only [hi] at h; exact ih _ _ _ (by simpa using h)
+        obtain ⟨n, body, stf, st', _, _, _, _, _, _, h'⟩ := incl_head_ok fs _ stack cur pos f valid _ st r h
+        exact ih _ _ _ h'
 
 /-- a JSIGHT directive at the head of the remaining tokens of an included file -/
 theorem jsight_head_not_ok (fs : FS) (fuel : Nat) (stack : List (Nat × Nat)) (cur pos : Nat) (d : Dir)
@@ -184,16 +257,9 @@ theorem incl_head_on_stack_not_ok (fs : FS) (fuel : Nat) (stack : List (Nat × N
   cases fuel with
   | zero => rw [scanIncFile_zero]; intro h; cases h
   | succ fuel =>
-    rw [scanIncFile_incl]
-    cases v with
-    | false => simp
-    | true =>
-      cases hg : fs.get? f with
-      | none => simp
-      | some e =>
-        cases e with
-        | directory => simp
-        | file body => simp [hs]
+    intro h
+    obtain ⟨n, body, stf, st', _, _, _, _, hs', _, _⟩ := incl_head_ok fs _ stack cur pos f v rest st r h
+    rw [hs] at hs'; cases hs'
 
 /-- a file that is on the include stack and still has an INCLUDE ahead never finishes -/
 theorem incl_on_stack_not_ok (fs : FS) (fuel : Nat) (stack : List (Nat × Nat)) (cur pos : Nat)
@@ -285,6 +351,10 @@ theorem scanIncFile_no_fuel (fs : FS) :
           | ok c => exact ih _ _ _ _ _ hn hm hc hb'
       | incl f valid =>
         rw [scanIncFile_incl]
+        cases hfl : flushPending st with
+        | error e => intro h; exact hflush e hfl (by injection h)
+        | ok stf =>
+        simp only []
         cases valid with
         | false => intro h; cases h
         | true =>
@@ -311,9 +381,9 @@ theorem scanIncFile_no_fuel (fs : FS) :
                   have : fs.length - stack.length = (fs.length - (stack.length + 1)) + 1 := by omega
                   rw [this, Nat.add_mul, Nat.one_mul] at hb
                   omega
-                have hinner := ih ((cur, pos) :: stack) f 0 body st hn' hm' (get?_mem_ids hg) hbi
+                have hinner := ih ((cur, pos) :: stack) f 0 body stf hn' hm' (get?_mem_ids hg) hbi
                 simp only [Bool.not_true, Bool.false_eq_true, if_false]
-                cases hi : scanIncFile fs fuel ((cur, pos) :: stack) f 0 body st with
+                cases hi : scanIncFile fs fuel ((cur, pos) :: stack) f 0 body stf with
                 | error e => intro h; apply hinner; rw [hi]; exact h
                 | ok st' => exact ih _ _ _ _ _ hn hm hc hb'
 
@@ -485,31 +555,14 @@ theorem scanIncFile_traces (fs : FS) (root : Nat) :
             intro e he
             rw [flush_traces hfl] at he; exact htr e he
       | incl f valid =>
-        rw [scanIncFile_incl] at h
-        cases valid with
-        | false => simp at h
-        | true =>
-          cases hg : fs.get? f with
-          | none => simp [hg] at h
-          | some e =>
-            cases e with
-            | directory => simp [hg] at h
-            | file body =>
-              simp only [hg] at h
-              cases hs : stack.any (·.1 == cur) with
-              | true => simp [hs] at h
-              | false =>
-                simp only [hs] at h
-                cases hi : scanIncFile fs fuel ((cur, pos) :: stack) f 0 body st with
-                | error e => simp [hi] at h
-                | ok st' =>
-                  simp only [hi] at h
-                  have h : scanIncFile fs fuel stack cur (pos + 1) rest st' = .ok r := by simpa using h
-                  have hl' : Live fs root ((cur, pos) :: stack) f := Live.push hl hs hc hpos hg
-                  have htr' := ih ((cur, pos) :: stack) f 0 body st body st' hl' hg (by simp)
-                    (fun hs' => hl'.has_incl hg hs') htr hi
-                  refine ih _ _ _ _ _ all r hl hc hrest ?_ htr' h
-                  intro hs'; rw [hs] at hs'; cases hs'
+        obtain ⟨n, body, stf, st', hn, hfl, hv, hg, hs, hi, h'⟩ := incl_head_ok fs _ stack cur pos f valid rest st r h
+        cases hn
+        subst hv
+        have hl' : Live fs root ((cur, pos) :: stack) f := Live.push hl hs hc hpos hg
+        have htr' := ih ((cur, pos) :: stack) f 0 body stf body st' hl' hg (by simp)
+          (fun hs' => hl'.has_incl hg hs') (by rw [flush_traces hfl]; exact htr) hi
+        refine ih _ _ _ _ _ all r hl hc hrest ?_ htr' h'
+        intro hs'; rw [hs] at hs'; cases hs'
 
 /-! ### textual inclusion -/
 
@@ -599,6 +652,10 @@ theorem scanIncFile_mono (fs : FS) :
       | incl f valid =>
         rw [scanIncFile_incl] at h
         rw [scanIncFile_incl, scanIncFile_incl]
+        cases hfl : flushPending st with
+        | error e => rfl
+        | ok stf =>
+        simp only [hfl] at h ⊢
         cases valid with
         | false => rfl
         | true =>
@@ -613,89 +670,60 @@ theorem scanIncFile_mono (fs : FS) :
               | true => rfl
               | false =>
                 simp only [hs, Bool.not_true, Bool.false_eq_true, ↓reduceIte] at h ⊢
-                cases hi : scanIncFile fs fuel ((cur, pos) :: stack) f 0 body st with
+                cases hi : scanIncFile fs fuel ((cur, pos) :: stack) f 0 body stf with
                 | error e =>
                   simp only [hi] at h
-                  have : scanIncFile fs fuel ((cur, pos) :: stack) f 0 body st ≠ .error (.inc .fuel) := by
+                  have : scanIncFile fs fuel ((cur, pos) :: stack) f 0 body stf ≠ .error (.inc .fuel) := by
                     rw [hi]; exact h
                   rw [ih _ _ _ _ _ k this, hi]
                 | ok st' =>
                   simp only [hi] at h
-                  have : scanIncFile fs fuel ((cur, pos) :: stack) f 0 body st ≠ .error (.inc .fuel) := by
+                  have : scanIncFile fs fuel ((cur, pos) :: stack) f 0 body stf ≠ .error (.inc .fuel) := by
                     rw [hi]; intro hh; cases hh
                   rw [ih _ _ _ _ _ k this, hi]
                   exact ih _ _ _ _ _ _ h
 
-/-- placing the pending directive beforehand does not change a scan (it is placed before anything else happens to the
-state, and an INCLUDE hands the state on unchanged) -/
-theorem scanIncFile_flush (fs : FS) :
-    ∀ (fuel : Nat) (stack : List (Nat × Nat)) (cur pos : Nat) (toks : List FTok) (st stf : PScan),
-      flushPending st = .ok stf →
-      scanIncFile fs fuel stack cur pos toks st = scanIncFile fs fuel stack cur pos toks stf := by
-  intro fuel
-  induction fuel with
-  | zero => intro stack cur pos toks st stf _; rw [scanIncFile_zero, scanIncFile_zero]
-  | succ fuel ih =>
-    intro stack cur pos toks st stf hfl
-    have hfl' := flush_idem hfl
+/-- placing the pending directive beforehand does not change a scan: every step of the scan (a directive, ")", an
+INCLUDE, the end of the file) places it before anything else happens. (Since the repair F42 this needs no induction:
+before, an INCLUDE handed the unplaced directive on to the included file.) -/
+theorem scanIncFile_flush (fs : FS) (fuel : Nat) (stack : List (Nat × Nat)) (cur pos : Nat) (toks : List FTok)
+    (st stf : PScan) (hfl : flushPending st = .ok stf) :
+    scanIncFile fs fuel stack cur pos toks st = scanIncFile fs fuel stack cur pos toks stf := by
+  have hfl' := flush_idem hfl
+  cases fuel with
+  | zero => rw [scanIncFile_zero, scanIncFile_zero]
+  | succ fuel =>
     cases toks with
     | nil => rw [scanIncFile_nil, scanIncFile_nil, hfl, hfl']
     | cons t rest =>
       cases t with
       | dir d => rw [scanIncFile_dir, scanIncFile_dir, hfl, hfl']
       | close => rw [scanIncFile_close, scanIncFile_close, hfl, hfl']
-      | incl f valid =>
-        rw [scanIncFile_incl, scanIncFile_incl]
-        cases valid with
-        | false => rfl
-        | true =>
-          cases hg : fs.get? f with
-          | none => rfl
-          | some e =>
-            cases e with
-            | directory => rfl
-            | file body => simp only [ih ((cur, pos) :: stack) f 0 body st stf hfl]
+      | incl f valid => rw [scanIncFile_incl, scanIncFile_incl, hfl, hfl']
 
 /-- a successful scan has placed the pending directive it started with -/
-theorem ok_flush (fs : FS) :
-    ∀ (fuel : Nat) (stack : List (Nat × Nat)) (cur pos : Nat) (toks : List FTok) (st r : PScan),
-      scanIncFile fs fuel stack cur pos toks st = .ok r → ∃ stf, flushPending st = .ok stf := by
-  intro fuel
-  induction fuel with
-  | zero => intro stack cur pos toks st r h; rw [scanIncFile_zero] at h; cases h
-  | succ fuel ih =>
-    intro stack cur pos toks st r h
+theorem ok_flush (fs : FS) (fuel : Nat) (stack : List (Nat × Nat)) (cur pos : Nat) (toks : List FTok) (st r : PScan)
+    (h : scanIncFile fs fuel stack cur pos toks st = .ok r) : ∃ stf, flushPending st = .ok stf := by
+  cases fuel with
+  | zero => rw [scanIncFile_zero] at h; cases h
+  | succ fuel =>
     cases hfl : flushPending st with
     | ok stf => exact ⟨stf, rfl⟩
-    | error e =>
-      exfalso
-      cases toks with
-      | nil => rw [scanIncFile_nil, hfl] at h; cases h
-      | cons t rest =>
-        cases t with
-        | dir d => rw [scanIncFile_dir, hfl] at h; cases h
-        | close => rw [scanIncFile_close, hfl] at h; cases h
-        | incl f valid =>
-          rw [scanIncFile_incl] at h
-          cases valid with
-          | false => simp at h
-          | true =>
-            cases hg : fs.get? f with
-            | none => simp [hg] at h
-            | some en =>
-              cases en with
-              | directory => simp [hg] at h
-              | file body =>
-                simp only [hg] at h
-                cases hs : stack.any (·.1 == cur) with
-                | true => simp [hs] at h
-                | false =>
-                  simp only [hs] at h
-                  cases hi : scanIncFile fs fuel ((cur, pos) :: stack) f 0 body st with
-                  | error e' => simp [hi] at h
-                  | ok st' =>
-                    obtain ⟨stf, hstf⟩ := ih _ _ _ _ _ _ hi
-                    rw [hfl] at hstf; cases hstf
+    | error e => rw [scanIncFile_flush_error fs fuel stack cur pos toks st e hfl] at h; cases h
+
+/-- before the repair F42 the INCLUDE handed the unplaced directive on to the included file; as long as the included
+file is scanned with some fuel that is the same thing, because the first step in the included file places it -/
+theorem scanIncFile_incl_file_unplaced (fs : FS) (fuel : Nat) (stack : List (Nat × Nat)) (cur pos f : Nat)
+    (rest body : List FTok) (st : PScan) (hf : fs.get? f = some (.file body))
+    (hs : stack.any (·.1 == cur) = false) :
+    scanIncFile fs (fuel + 2) stack cur pos (.incl f true :: rest) st =
+      match scanIncFile fs (fuel + 1) ((cur, pos) :: stack) f 0 body st with
+      | .error e => .error e
+      | .ok st' => scanIncFile fs (fuel + 1) stack cur (pos + 1) rest st' := by
+  rw [scanIncFile_incl_file fs _ stack cur pos f rest body st hf hs]
+  cases hfl : flushPending st with
+  | error e => rw [scanIncFile_flush_error fs fuel _ f 0 body st e hfl]
+  | ok stf => rw [scanIncFile_flush fs _ _ f 0 body st stf hfl]
 
 theorem view_error_inc (a b : InclErr) (h : erasePosI a = erasePosI b) :
     view (.error (.inc a)) = view (.error (.inc b)) := by
@@ -756,36 +784,41 @@ theorem scanIncFile_view (fs : FS) :
           | ok c => exact ih _ _ _ _ _ _ _ _ hs rfl hab'
       | incl f valid =>
         rw [scanIncFile_incl, scanIncFile_incl]
-        cases valid with
-        | false => exact view_error_inc _ _ rfl
-        | true =>
-          cases hg : fs.get? f with
-          | none => exact view_error_inc _ _ rfl
-          | some e =>
-            cases e with
-            | directory => exact view_error_inc _ _ rfl
-            | file body =>
-              simp only [hany]
-              cases hs2 : s2.any (·.1 == cur) with
-              | true => exact view_error_inc _ _ rfl
-              | false =>
-                simp only [Bool.not_true, Bool.false_eq_true, ↓reduceIte]
-                have hin := ih ((cur, p1) :: s1) ((cur, p2) :: s2) f 0 0 body st1 st2
-                  (by simp [hs]) hc hp
-                cases h1 : scanIncFile fs fuel ((cur, p1) :: s1) f 0 body st1 with
-                | error e1 =>
-                  cases h2 : scanIncFile fs fuel ((cur, p2) :: s2) f 0 body st2 with
-                  | error e2 => rw [h1, h2] at hin; exact hin
-                  | ok b => rw [h1, h2] at hin; simp [view] at hin
-                | ok a =>
-                  cases h2 : scanIncFile fs fuel ((cur, p2) :: s2) f 0 body st2 with
-                  | error e2 => rw [h1, h2] at hin; simp [view] at hin
-                  | ok b =>
-                    rw [h1, h2] at hin
-                    simp only [view, Except.ok.injEq, Prod.mk.injEq] at hin
-                    exact ih _ _ _ _ _ _ _ _ hs hin.1 hin.2
+        rcases hflush with ⟨e, h1, h2⟩ | ⟨a, b, h1, h2, hab, hab'⟩
+        · rw [h1, h2]
+        · rw [h1, h2]
+          simp only []
+          cases valid with
+          | false => exact view_error_inc _ _ rfl
+          | true =>
+            cases hg : fs.get? f with
+            | none => exact view_error_inc _ _ rfl
+            | some e =>
+              cases e with
+              | directory => exact view_error_inc _ _ rfl
+              | file body =>
+                simp only [hany]
+                cases hs2 : s2.any (·.1 == cur) with
+                | true => exact view_error_inc _ _ rfl
+                | false =>
+                  simp only [Bool.not_true, Bool.false_eq_true, ↓reduceIte]
+                  have hin := ih ((cur, p1) :: s1) ((cur, p2) :: s2) f 0 0 body a b
+                    (by simp [hs]) hab hab'
+                  cases h1 : scanIncFile fs fuel ((cur, p1) :: s1) f 0 body a with
+                  | error e1 =>
+                    cases h2 : scanIncFile fs fuel ((cur, p2) :: s2) f 0 body b with
+                    | error e2 => rw [h1, h2] at hin; exact hin
+                    | ok b' => rw [h1, h2] at hin; simp [view] at hin
+                  | ok a' =>
+                    cases h2 : scanIncFile fs fuel ((cur, p2) :: s2) f 0 body b with
+                    | error e2 => rw [h1, h2] at hin; simp [view] at hin
+                    | ok b' =>
+                      rw [h1, h2] at hin
+                      simp only [view, Except.ok.injEq, Prod.mk.injEq] at hin
+                      exact ih _ _ _ _ _ _ _ _ hs hin.1 hin.2
 
-/-- the effect of a token list without INCLUDE and JSIGHT on context and pending directive -/
+/-- the effect of a token list without INCLUDE and JSIGHT on context and pending directive (an INCLUDE token counts as
+the placement of the pending directive only) -/
 def flatRun : List FTok → Ctx → Option Dir → Except CtxErr (Ctx × Option Dir)
   | [], c, p => .ok (c, p)
   | .dir d :: r, c, p =>
@@ -799,7 +832,10 @@ def flatRun : List FTok → Ctx → Option Dir → Except CtxErr (Ctx × Option 
       match closeExplicit c'.frames c'.roots with
       | .error e => .error e
       | .ok c'' => flatRun r c'' none
-  | .incl _ _ :: r, c, p => flatRun r c p
+  | .incl _ _ :: r, c, p =>
+    match flushC c p with
+    | .error e => .error e
+    | .ok c' => flatRun r c' none
 
 /-- scanning a token list without INCLUDE and JSIGHT in front of `X`: independent of stack, file and position -/
 theorem scanIncFile_plain (fs : FS) (stack : List (Nat × Nat)) (cur : Nat) (X : List FTok) :
@@ -889,35 +925,42 @@ theorem scanIncFile_prefix (fs : FS) (stack : List (Nat × Nat)) (cur : Nat) :
             exact ⟨o, fun X => by
               rw [List.cons_append, scanIncFile_close, hfl]; simp only [hce]; exact ho X⟩
       | incl g v =>
+        cases hfl : flushPending st with
+        | error e => exact ⟨.error e, fun X => by rw [List.cons_append, scanIncFile_incl, hfl]⟩
+        | ok stf =>
         cases v with
         | false =>
-          exact ⟨.error (.inc (.badName cur pos)), fun X => by rw [List.cons_append, scanIncFile_incl]; rfl⟩
+          exact ⟨.error (.inc (.badName cur pos)), fun X => by rw [List.cons_append, scanIncFile_incl, hfl]; rfl⟩
         | true =>
           cases hg : fs.get? g with
           | none =>
-            exact ⟨.error (.inc (.missing cur pos)), fun X => by rw [List.cons_append, scanIncFile_incl, hg]; rfl⟩
+            exact ⟨.error (.inc (.missing cur pos)), fun X => by
+              rw [List.cons_append, scanIncFile_incl, hfl]; simp only [hg]; rfl⟩
           | some e =>
             cases e with
             | directory =>
               exact ⟨.error (.inc (.isDirectory cur pos)), fun X => by
-                rw [List.cons_append, scanIncFile_incl, hg]; rfl⟩
+                rw [List.cons_append, scanIncFile_incl, hfl]; simp only [hg]; rfl⟩
             | file body =>
               cases hs : stack.any (·.1 == cur) with
               | true =>
                 exact ⟨.error (.inc (.recursion cur pos)), fun X => by
-                  rw [List.cons_append, scanIncFile_incl, hg]; simp [hs]⟩
+                  rw [List.cons_append, scanIncFile_incl, hfl]; simp [hg, hs]⟩
               | false =>
-                cases hi : scanIncFile fs N ((cur, pos) :: stack) g 0 body st with
+                cases hi : scanIncFile fs N ((cur, pos) :: stack) g 0 body stf with
                 | error e =>
                   exact ⟨.error e, fun X => by
-                    rw [List.cons_append, scanIncFile_incl_file fs N stack cur pos g _ body st hg hs, hi]⟩
+                    rw [List.cons_append, scanIncFile_incl_file_ok fs N stack cur pos g _ body st stf hg hs hfl, hi]⟩
                 | ok st' =>
                   obtain ⟨o, ho⟩ := ih N (pos + 1) st'
                   exact ⟨o, fun X => by
-                    rw [List.cons_append, scanIncFile_incl_file fs N stack cur pos g _ body st hg hs, hi]
+                    rw [List.cons_append, scanIncFile_incl_file_ok fs N stack cur pos g _ body st stf hg hs hfl, hi]
                     exact ho X⟩
 
-/-- the INCLUDE of a file without INCLUDE and JSIGHT, against its text, from the same state: the complete comparison -/
+/-- the INCLUDE of a file without INCLUDE and JSIGHT, against its text, from the same state: the complete comparison.
+The two runs end alike unless the included file ends inside a parenthesised context.  (Since the repair F42 the
+directive that is pending at the end of the included file is placed at the very next step of the spliced run as well —
+also when that step is an INCLUDE —, so a failure to place it is the same error in both runs.) -/
 theorem textual_at (fs : FS) (stack : List (Nat × Nat)) (cur pos f : Nat) (body post : List FTok) (st : PScan)
     (hf : fs.get? f = some (.file body)) (hincl : ∀ g v, FTok.incl g v ∉ body)
     (hjs : ∀ d, FTok.dir d ∈ body → d.kind ≠ Kind.Jsight) (hs : stack.any (·.1 == cur) = false) (n1 n2 : Nat)
@@ -931,7 +974,7 @@ theorem textual_at (fs : FS) (stack : List (Nat × Nat)) (cur pos f : Nat) (body
       match flushC cp.1 cp.2 with
       | .error e =>
         scanIncFile fs n1 stack cur pos (FTok.incl f true :: post) st = .error (.ctx e) ∧
-        ∀ r', scanIncFile fs n2 stack cur pos (body ++ post) st ≠ .ok r'
+        scanIncFile fs n2 stack cur pos (body ++ post) st = .error (.ctx e)
       | .ok c' =>
         if anyExplicit c'.frames then
           scanIncFile fs n1 stack cur pos (FTok.incl f true :: post) st = .error (.ctx .unclosedAtEOF)
@@ -939,9 +982,10 @@ theorem textual_at (fs : FS) (stack : List (Nat × Nat)) (cur pos f : Nat) (body
           view (scanIncFile fs n2 stack cur pos (body ++ post) st) := by
   have hcut := scanIncFile_mono fs n1 stack cur pos (FTok.incl f true :: post) st (n2 + body.length + 2) h1
   have hspl := scanIncFile_mono fs n2 stack cur pos (body ++ post) st (n1 + body.length + body.length + 1) h2
-  have e1 : n1 + (n2 + body.length + 2) = (n1 + n2 + 1 + body.length) + 1 := by omega
+  have e1 : n1 + (n2 + body.length + 2) = (n1 + n2 + body.length) + 2 := by omega
   have e2 : n2 + (n1 + body.length + body.length + 1) = (n1 + n2 + 1 + body.length) + body.length := by omega
-  rw [e1, scanIncFile_incl_file fs _ stack cur pos f post body st hf hs] at hcut
+  have e3 : n1 + n2 + body.length + 1 = (n1 + n2 + 1) + body.length := by omega
+  rw [e1, scanIncFile_incl_file_unplaced fs _ stack cur pos f post body st hf hs, e3] at hcut
   rw [e2] at hspl
   obtain ⟨tr1, hin⟩ := scanIncFile_plain fs ((cur, pos) :: stack) f [] body hincl hjs (n1 + n2 + 1) 0 st
   obtain ⟨tr2, hout⟩ := scanIncFile_plain fs stack cur post body hincl hjs (n1 + n2 + 1 + body.length) pos st
@@ -958,11 +1002,10 @@ theorem textual_at (fs : FS) (stack : List (Nat × Nat)) (cur pos f : Nat) (body
     cases hfc : flushC cp.1 cp.2 with
     | error e =>
       refine ⟨rfl, ?_⟩
-      intro r' hr'
-      obtain ⟨stf, hstf⟩ := ok_flush fs _ _ _ _ _ _ _ hr'
-      rw [flush_eq] at hstf
-      simp only [hfc] at hstf
-      cases hstf
+      have e4 : n1 + n2 + 1 + body.length = (n1 + n2 + body.length) + 1 := by omega
+      rw [e4]
+      apply scanIncFile_flush_error
+      rw [flush_eq]; simp only [hfc]
     | ok c' =>
       simp only []
       cases hae : anyExplicit c'.frames with
